@@ -317,7 +317,7 @@ func drawP(t *rapid.T, n int) float64 {
 }
 
 func TestQuantile(t *testing.T) {
-	vk.Run(t, "qcdf", vk.Opts{Quick: 25000, Thorough: 800000, NoCrumb: true}, func(t *rapid.T) qCase {
+	vk.Run(t, "qcdf", vk.Opts{Quick: 60000, Thorough: 800000, NoCrumb: true}, func(t *rapid.T) qCase {
 		c := qCase{}
 		c.S = drawSample(t, 1, 200, []int{dcTies, dcTies, dcConst, dcDyadic, dcGauss, dcWide}, []int{wcNil, wcOnes, wcInts, wcReal, wcReal, wcZeros})
 		np := rapid.IntRange(2, 6).Draw(t, "np")
@@ -501,7 +501,7 @@ func checkHist(c histCase) *vk.Failure {
 }
 
 func TestHistogram(t *testing.T) {
-	vk.Run(t, "hist", vk.Opts{Quick: 15000, Thorough: 500000, NoCrumb: true}, func(t *rapid.T) histCase {
+	vk.Run(t, "hist", vk.Opts{Quick: 30000, Thorough: 500000, NoCrumb: true}, func(t *rapid.T) histCase {
 		return histCase{
 			S:       drawSample(t, 1, 200, []int{dcTies, dcTies, dcConst, dcDyadic, dcGauss, dcWide}, []int{wcNil, wcOnes, wcInts, wcReal, wcZeros}),
 			NInner:  rapid.IntRange(0, 10).Draw(t, "ninner"),
@@ -614,7 +614,7 @@ func checkKS(c ksCase) *vk.Failure {
 func TestKS(t *testing.T) {
 	dcs := []int{dcTies, dcTies, dcTies, dcConst, dcDyadic, dcGauss, dcWide}
 	wcs := []int{wcNil, wcOnes, wcInts, wcReal, wcZeros}
-	vk.Run(t, "ks", vk.Opts{Quick: 15000, Thorough: 500000, NoCrumb: true}, func(t *rapid.T) ksCase {
+	vk.Run(t, "ks", vk.Opts{Quick: 30000, Thorough: 500000, NoCrumb: true}, func(t *rapid.T) ksCase {
 		c := ksCase{}
 		c.SX = drawSample(t, 0, 100, dcs, wcs)
 		c.SY = drawSample(t, 0, 100, dcs, wcs)
@@ -861,7 +861,7 @@ func checkROC(c rocCase) *vk.Failure {
 }
 
 func TestROC(t *testing.T) {
-	vk.Run(t, "roc", vk.Opts{Quick: 12000, Thorough: 400000, NoCrumb: true}, func(t *rapid.T) rocCase {
+	vk.Run(t, "roc", vk.Opts{Quick: 25000, Thorough: 400000, NoCrumb: true}, func(t *rapid.T) rocCase {
 		return rocCase{
 			S:       drawSample(t, 2, 150, []int{dcTies, dcTies, dcDyadic, dcGauss, dcConst, dcWide}, []int{wcNil, wcOnes, wcInts, wcReal, wcZeros}),
 			ClsSeed: rapid.Uint64().Draw(t, "clsseed"),
